@@ -41,14 +41,24 @@ type CaseResult struct {
 	ObligationIDs map[string]int
 }
 
+type StepInfo struct {
+	File string
+	Line int
+}
+
 type ViolationInfo struct {
-	ID     string
-	Where  string
-	Model  map[string]uint64
-	Inputs []InputVal
-	Sched  [][]uint64 // per thread cs positions
-	Trace  []string
-	Known  string
+	Steps    [][]StepInfo // per thread: shared-access steps (statement lines) in program order
+	Quota    [][]int      // per thread, per round: number of steps
+	Aligned  bool         // no context switch falls inside a statement
+	Also     []string     // other obligations violated in the same model
+	Finished []bool       // per thread: ran to completion in the model
+	ID       string
+	Where    string
+	Model    map[string]uint64
+	Inputs   []InputVal
+	Sched    [][]uint64 // per thread cs positions
+	Trace    []string
+	Known    string
 }
 
 type InputVal struct {
@@ -210,7 +220,11 @@ func RunCase(prog *ssa.Program, pkg *ssa.Package, harness string, shape map[stri
 			return strings.HasPrefix(id, "nopanic:") || strings.HasPrefix(id, "rawptr:") || strings.HasPrefix(id, "aligned:") || strings.HasPrefix(id, "noblock:")
 		}
 		foreign := func(id string) bool {
-			id = strings.TrimPrefix(id, "F-ABA/")
+			if strings.HasPrefix(id, "F-") {
+				if i := strings.IndexByte(id, '/'); i > 0 {
+					id = id[i+1:]
+				}
+			}
 			if len(id) > 4 && id[0] == 'C' && id[3] == '.' && id[1] >= '0' && id[1] <= '9' && id[2] >= '0' && id[2] <= '9' {
 				return ro.Prop != "" && id[:3] != ro.Prop
 			}
@@ -287,9 +301,13 @@ func RunCase(prog *ssa.Program, pkg *ssa.Package, harness string, shape map[stri
 					v.Sched = append(v.Sched, row)
 				}
 				v.Trace = e.renderTrace(m)
+				if len(e.ThreadsDone) > 0 {
+					e.scheduleSteps(v, m, conds[pick], check)
+				}
 				for _, i := range idx {
 					if i != pick && smt.Eval(conds[i], m, memo) == 1 {
 						v.Trace = append(v.Trace, "also violated in this model: "+e.Obls[i].ID+" at "+e.Obls[i].Where)
+						v.Also = append(v.Also, e.Obls[i].ID)
 					}
 				}
 				res.Violations = append(res.Violations, v)
@@ -413,11 +431,17 @@ func (e *Engine) renderTrace(m map[string]uint64) []string {
 	R := len(e.ThreadsDone[0].Cs)
 	for r := 0; r < R; r++ {
 		for _, th := range e.ThreadsDone {
+			csVal := func(t smt.Term) uint64 {
+				if t.IsConst() {
+					return t.Val
+				}
+				return m[t.Name]
+			}
 			lo := uint64(0)
 			if r > 0 {
-				lo = m[th.Cs[r-1].Name]
+				lo = csVal(th.Cs[r-1])
 			}
-			hi := m[th.Cs[r].Name]
+			hi := csVal(th.Cs[r])
 			for i := lo; i < hi && int(i) < len(th.Events); i++ {
 				ev := th.Events[i]
 				if smt.Eval(ev.G, m, memo) == 0 {
@@ -538,4 +562,117 @@ func Race(solvers []*smt.Solver, asserts []smt.Term, want []smt.Term, timeoutMs 
 		who = solvers[first.i].B.Name
 	}
 	return res.r, res.m, who
+}
+
+func parseWhere(w string) (string, int) {
+	// "file.go:123" possibly followed by "(fn)"
+	i := strings.IndexByte(w, ':')
+	if i < 0 {
+		return w, 0
+	}
+	j := i + 1
+	n := 0
+	for j < len(w) && w[j] >= '0' && w[j] <= '9' {
+		n = n*10 + int(w[j]-'0')
+		j++
+	}
+	return w[:i], n
+}
+
+// scheduleSteps derives, from a model, the per-thread list of statement-level steps and the
+// per-round quotas; if a context switch falls inside a statement it asks for another model of the
+// same violation whose switches are statement-aligned (a few attempts).
+func (e *Engine) scheduleSteps(v *ViolationInfo, m map[string]uint64, cond smt.Term, check func([]smt.Term, []smt.Term) (smt.Result, map[string]uint64)) {
+	c := e.C
+	var extra []smt.Term
+	for attempt := 0; attempt < 6; attempt++ {
+		memo := map[int]uint64{}
+		v.Steps, v.Quota, v.Finished = nil, nil, nil
+		aligned := true
+		for _, th := range e.ThreadsDone {
+			R := len(th.Cs)
+			csv := make([]uint64, R)
+			for r, cs := range th.Cs {
+				if cs.IsConst() {
+					csv[r] = cs.Val
+				} else {
+					csv[r] = m[cs.Name]
+				}
+			}
+			type step struct {
+				first, last int
+				file        string
+				line        int
+			}
+			var steps []step
+			for i, ev := range th.Events {
+				if uint64(i) >= csv[R-1] {
+					break
+				}
+				if ev.Kind == EvBegin || ev.Kind == EvEnd || smt.Eval(ev.G, m, memo) == 0 {
+					continue
+				}
+				f, l := parseWhere(ev.Where)
+				if n := len(steps); n > 0 && steps[n-1].file == f && steps[n-1].line == l {
+					steps[n-1].last = i
+					continue
+				}
+				steps = append(steps, step{i, i, f, l})
+			}
+			var si []StepInfo
+			quota := make([]int, R)
+			for _, s := range steps {
+				si = append(si, StepInfo{s.file, s.line})
+				for r := 0; r < R; r++ {
+					lo := uint64(0)
+					if r > 0 {
+						lo = csv[r-1]
+					}
+					if uint64(s.first) >= lo && uint64(s.first) < csv[r] {
+						quota[r]++
+					}
+					// a boundary strictly inside the step
+					if uint64(s.first) < csv[r] && csv[r] <= uint64(s.last) {
+						aligned = false
+						for _, cs := range th.Cs {
+							if !cs.IsConst() {
+								inside := c.And(c.Ugt(cs, c.BV(uint64(s.first), cs.W)), c.Ule(cs, c.BV(uint64(s.last), cs.W)))
+								extra = append(extra, c.Not(inside))
+							}
+						}
+					}
+				}
+			}
+			v.Steps = append(v.Steps, si)
+			v.Quota = append(v.Quota, quota)
+			v.Finished = append(v.Finished, csv[R-1] == uint64(len(th.Events)))
+		}
+		v.Aligned = aligned
+		if aligned {
+			return
+		}
+		r, m2 := check(append([]smt.Term{cond}, extra...), c.Vars)
+		if r != smt.Sat {
+			return
+		}
+		m = m2
+		v.Model = m2
+		v.Inputs = nil
+		for _, in := range e.Inputs {
+			v.Inputs = append(v.Inputs, InputVal{in.Name, in.Kind, m[in.T.Name]})
+		}
+		v.Sched = nil
+		for _, th := range e.ThreadsDone {
+			var row []uint64
+			for _, cs := range th.Cs {
+				if cs.IsConst() {
+					row = append(row, cs.Val)
+				} else {
+					row = append(row, m[cs.Name])
+				}
+			}
+			v.Sched = append(v.Sched, row)
+		}
+		v.Trace = e.renderTrace(m)
+	}
 }
